@@ -571,90 +571,105 @@ def main():
     known_hits = []
     unreproduced = []
     exit_code = 0
+    stop = False
     for cls, fl_list in by_class.items():
-        f = fl_list[0]
-        binary = binaries[f.flavour]
-        base = os.path.join(REPLAYS, "%s_%s_%d" % (prop, hashlib.sha1(cls.encode()).hexdigest()[:10], f.run))
-        path = base + ".json"
-        # explicit replay file: program + fault plan (+ schedule decisions)
-        cmd = [binary, "--world", f.world, "--variant", str(f.variant), "--seed", str(seed), "--one", str(f.run), "--dump", path]
-        if thorough:
-            cmd.append("--thorough")
-        sh(cmd, timeout=400)
-        if not os.path.exists(path):
-            print("MACHINERY: could not produce a replay file for %s (run %d)" % (cls, f.run))
-            return 2
-        merge_streamed_decisions(path)
-        res, events, rc0 = replay_once(binary, path)
-        got = findings_of(binary, f.world, f.variant, f.flavour, res, events, rc0)
-        if not any(g.cls() == cls for g in got):
-            if f.kind == "hang":
-                # the batch ran 16 worlds at once; alone the run finishes inside its budget: slow, not stuck
-                other["slow-run-not-a-hang"] += len(fl_list)
+        # candidates: the lowest run indices that showed the class (deterministic whatever order the workers reported in);
+        # a candidate that a confirmation hands to another property does not speak for the class: the next one is tried
+        cands, seen_runs = [], set()
+        for x in sorted(fl_list, key=lambda x: (x.world, x.variant, x.flavour, x.run)):
+            if (x.flavour, x.run) not in seen_runs:
+                seen_runs.add((x.flavour, x.run))
+                cands.append(x)
+        cands = cands[:4]
+        for ci, f in enumerate(cands):
+            last = ci == len(cands) - 1
+            reported = False
+            binary = binaries[f.flavour]
+            base = os.path.join(REPLAYS, "%s_%s_%d" % (prop, hashlib.sha1(cls.encode()).hexdigest()[:10], f.run))
+            path = base + ".json"
+            # explicit replay file: program + fault plan (+ schedule decisions)
+            cmd = [binary, "--world", f.world, "--variant", str(f.variant), "--seed", str(seed), "--one", str(f.run), "--dump", path]
+            if thorough:
+                cmd.append("--thorough")
+            sh(cmd, timeout=400)
+            if not os.path.exists(path):
+                print("MACHINERY: could not produce a replay file for %s (run %d)" % (cls, f.run))
+                return 2
+            merge_streamed_decisions(path)
+            res, events, rc0 = replay_once(binary, path)
+            got = findings_of(binary, f.world, f.variant, f.flavour, res, events, rc0)
+            if not any(g.cls() == cls for g in got):
+                if f.kind == "hang":
+                    # the batch ran 16 worlds at once; alone the run finishes inside its budget: slow, not stuck
+                    other["slow-run-not-a-hang"] += len(fl_list) if last else 0
+                    continue
+                # nothing is reported that does not reproduce from its replay file in a fresh process. On a tree that really
+                # races, the first four sanitizer reports of a run (after which the run ends) are not always the same four in
+                # the batch (forked from a zygote) and in a fresh process; such a class is dropped here, and the check ends
+                # with the machinery exit code only if nothing at all could be reproduced
+                if last:
+                    unreproduced.append("%s (run %d, replay gave %s)" % (cls, f.run, [g.cls() for g in got][:3]))
+                other["unreproduced:%s" % cls] += len(fl_list) if last else 0
                 continue
-            # nothing is reported that does not reproduce from its replay file in a fresh process. On a tree that really
-            # races, the first four sanitizer reports of a run (after which the run ends) are not always the same four in
-            # the batch (forked from a zygote) and in a fresh process; such a class is dropped here, and the check ends
-            # with the machinery exit code only if nothing at all could be reproduced
-            unreproduced.append("%s (run %d, replay gave %s)" % (cls, f.run, [g.cls() for g in got][:3]))
-            other["unreproduced:%s" % cls] += len(fl_list)
-            continue
-        # confirmations that keep a check from alarming on somebody else's property
-        if prop == "C07" and f.kind in ("crash", "guard-page"):
-            # a crash belongs to C07 only if it depends on the detected CPU features: the same program with the first
-            # mask for both executions, and with the second mask for both: exactly one of the two must crash
-            r2, e2, _ = replay_once(binary, path, ["--same-mask"])
-            r3, e3, _ = replay_once(binary, path, ["--same-mask-b"])
-            if bool(e2 or r2 is None) == bool(e3 or r3 is None):
-                other["crash-independent-of-dispatch:%s" % f.op] += len(fl_list)
+            # confirmations that keep a check from alarming on somebody else's property
+            if prop == "C07" and f.kind in ("crash", "guard-page"):
+                # a crash belongs to C07 only if it depends on the detected CPU features: the same program with the first
+                # mask for both executions, and with the second mask for both: exactly one of the two must crash
+                r2, e2, _ = replay_once(binary, path, ["--same-mask"])
+                r3, e3, _ = replay_once(binary, path, ["--same-mask-b"])
+                if bool(e2 or r2 is None) == bool(e3 or r3 is None):
+                    other["crash-independent-of-dispatch:%s" % f.op] += len(fl_list) if last else 0
+                    continue
+            if prop == "C15" and f.kind in ("crash", "guard-page"):
+                # a crash belongs to C15 only if it depends on alignment / previous memory contents
+                r2, e2, _ = replay_once(binary, path, ["--calm"])
+                if e2 or r2 is None:
+                    other["crash-independent-of-memory-plan:%s" % f.op] += len(fl_list) if last else 0
+                    continue
+            if prop == "C12" and f.kind in ("schedule-dependent-output", "crash", "guard-page", "hang"):
+                # pristine serial reference in a fresh process: if it differs from the in-process serial re-execution, the
+                # difference is history dependence (C15), not the interleaving
+                r2, e2, _ = replay_once(binary, path, ["--serial-only"])
+                if f.kind in ("crash", "guard-page", "hang") and (e2 or r2 is None):
+                    other["crash-also-serial:%s" % f.op] += len(fl_list) if last else 0
+                    continue
+                if f.kind == "schedule-dependent-output" and r2 and res and r2.get("task_hash_serial") != res.get("task_hash_serial"):
+                    other["history-dependent(serial re-execution differs from pristine serial):%s" % f.op] += len(fl_list) if last else 0
+                    continue
+            if len(violations) + len(known_hits) < 3 and f.kind != "hang":
+                tries, ncalls, ndec = minimise(binary, f.world, f.variant, f.flavour, path, cls)
+            else:
+                # further classes of the same batch are reported with their un-minimised (still explicit) replay
+                sp = json.load(open(path))
+                tries, ncalls, ndec = 0, len(sp["program"]["calls"]), len(sp.get("sched", {}).get("decisions", []))
+            # gate: two fresh processes, identical event-log hashes, same class
+            r1, e1, rc1 = replay_once(binary, path)
+            r2, e2, rc2 = replay_once(binary, path)
+            g1 = [g.cls() for g in findings_of(binary, f.world, f.variant, f.flavour, r1, e1, rc1)]
+            g2 = [g.cls() for g in findings_of(binary, f.world, f.variant, f.flavour, r2, e2, rc2)]
+            h1 = r1.get("log_hash") if r1 else "fault:" + ";".join(e1)
+            h2 = r2.get("log_hash") if r2 else "fault:" + ";".join(e2)
+            if cls not in g1 or cls not in g2 or h1 != h2:
+                if last:
+                    unreproduced.append("%s (minimised replay %s not stable: %s / %s)" % (cls, path, g1[:3], g2[:3]))
+                other["unreproduced:%s" % cls] += len(fl_list) if last else 0
                 continue
-        if prop == "C15" and f.kind in ("crash", "guard-page"):
-            # a crash belongs to C15 only if it depends on alignment / previous memory contents
-            r2, e2, _ = replay_once(binary, path, ["--calm"])
-            if e2 or r2 is None:
-                other["crash-independent-of-memory-plan:%s" % f.op] += len(fl_list)
-                continue
-        if prop == "C12" and f.kind in ("schedule-dependent-output", "crash", "guard-page", "hang"):
-            # pristine serial reference in a fresh process: if it differs from the in-process serial re-execution, the
-            # difference is history dependence (C15), not the interleaving
-            r2, e2, _ = replay_once(binary, path, ["--serial-only"])
-            if f.kind in ("crash", "guard-page", "hang") and (e2 or r2 is None):
-                other["crash-also-serial:%s" % f.op] += len(fl_list)
-                continue
-            if f.kind == "schedule-dependent-output" and r2 and res and r2.get("task_hash_serial") != res.get("task_hash_serial"):
-                other["history-dependent(serial re-execution differs from pristine serial):%s" % f.op] += len(fl_list)
-                continue
-        if len(violations) + len(known_hits) < 3 and f.kind != "hang":
-            tries, ncalls, ndec = minimise(binary, f.world, f.variant, f.flavour, path, cls)
-        else:
-            # further classes of the same batch are reported with their un-minimised (still explicit) replay
-            sp = json.load(open(path))
-            tries, ncalls, ndec = 0, len(sp["program"]["calls"]), len(sp.get("sched", {}).get("decisions", []))
-        # gate: two fresh processes, identical event-log hashes, same class
-        r1, e1, rc1 = replay_once(binary, path)
-        r2, e2, rc2 = replay_once(binary, path)
-        g1 = [g.cls() for g in findings_of(binary, f.world, f.variant, f.flavour, r1, e1, rc1)]
-        g2 = [g.cls() for g in findings_of(binary, f.world, f.variant, f.flavour, r2, e2, rc2)]
-        h1 = r1.get("log_hash") if r1 else "fault:" + ";".join(e1)
-        h2 = r2.get("log_hash") if r2 else "fault:" + ";".join(e2)
-        if cls not in g1 or cls not in g2 or h1 != h2:
-            unreproduced.append("%s (minimised replay %s not stable: %s / %s)" % (cls, path, g1[:3], g2[:3]))
-            other["unreproduced:%s" % cls] += len(fl_list)
-            continue
-        k = is_known(known, prop, f)
-        rec = {"class": cls, "kind": f.kind, "op": f.op, "detail": f.detail, "runs_hit": len(fl_list), "first_run": f.run, "world": f.world, "flavour": f.flavour,
-               "replay": path, "minimised_calls": ncalls, "minimised_decisions": ndec, "minimiser_replays": tries}
-        if k:
-            known_hits.append(rec)
-            print("KNOWN-FINDING: property=%s %s -- %s" % (prop, cls, k.get("what", "")))
-        else:
-            violations.append(rec)
-            exit_code = 1
-            print("VIOLATION property=%s replay=%s" % (prop, path))
-            print("  class: %s" % cls)
-            print("  first seen: world=%s flavour=%s run=%d (VERIF_SEED=%d), hit in %d run(s); minimised to %d call(s), %d decision(s)" % (f.world, f.flavour, f.run, seed, len(fl_list), ncalls, ndec))
-            print("  %s" % f.detail)
-            print("  replay: %s --replay %s --verbose" % (binary, path))
+            k = is_known(known, prop, f)
+            rec = {"class": cls, "kind": f.kind, "op": f.op, "detail": f.detail, "runs_hit": len(fl_list), "first_run": f.run, "world": f.world, "flavour": f.flavour,
+                   "replay": path, "minimised_calls": ncalls, "minimised_decisions": ndec, "minimiser_replays": tries}
+            if k:
+                known_hits.append(rec)
+                print("KNOWN-FINDING: property=%s %s -- %s" % (prop, cls, k.get("what", "")))
+            else:
+                violations.append(rec)
+                exit_code = 1
+                print("VIOLATION property=%s replay=%s" % (prop, path))
+                print("  class: %s" % cls)
+                print("  first seen: world=%s flavour=%s run=%d (VERIF_SEED=%d), hit in %d run(s); minimised to %d call(s), %d decision(s)" % (f.world, f.flavour, f.run, seed, len(fl_list), ncalls, ndec))
+                print("  %s" % f.detail)
+                print("  replay: %s --replay %s --verbose" % (binary, path))
+            reported = True
+            break
         if len(violations) >= max_report:
             break
 
@@ -699,7 +714,7 @@ def main():
             "ops_executed": dict(ops.most_common()),
             "run_status": dict(status),
             "worlds": per_world,
-            "other_findings_left_to_their_own_property": dict(other),
+            "other_findings_left_to_their_own_property": {k: v for k, v in other.items() if v},
             "known_findings_hit": known_hits,
             "violations": violations,
             "real_code": "every line of libspqlios (C, AVX2/AVX-512 C, .s kernels) built from /repo's working tree by its own CMake; libm",
